@@ -138,6 +138,35 @@ Proof.
   - now rewrite andb_true_r, orb_false_r.
 Qed.
 
+
+(** ** word arithmetic *)
+Lemma rest_facts r : 0 < radix - r mod radix <= radix /\
+  radix * ((r + (radix - r mod radix)) / radix) = r + (radix - r mod radix).
+Proof. unfold radix. lia. Qed.
+
+Lemma cnt_facts a b :
+  let cnt := if a <=? b then (b - a) / radix else 0 in
+  (a <= b -> a + radix * cnt <= b < a + radix * cnt + radix) /\ (b < a -> cnt = 0).
+Proof. cbv zeta. unfold radix. destruct (Nat.leb_spec a b); lia. Qed.
+
+Lemma cz_facts a j4 : a <= j4 + radix * ((a + radix - 1 - j4) / radix).
+Proof. unfold radix. lia. Qed.
+
+Lemma zero_words_fold wz : forall cz y p,
+  N.testbit (fold_left (fun x0 t => write_word x0 (wz + t) 0%N) (seq 0 cz) y) (N.of_nat p) =
+  if (radix * wz <=? p) && (p <? radix * wz + radix * cz) then false else N.testbit y (N.of_nat p).
+Proof.
+  induction cz as [|cz IH]; intros y p.
+  - cbn [seq fold_left]. rewrite Nat.mul_0_r, Nat.add_0_r.
+    destruct (Nat.leb_spec (radix * wz) p), (Nat.ltb_spec p (radix * wz)); try lia; reflexivity.
+  - rewrite seq_S, fold_left_app. cbn [fold_left Nat.add]. rewrite testbit_write_word, IH.
+    replace (radix * (wz + cz)) with (radix * wz + radix * cz) by lia.
+    destruct (Nat.leb_spec (radix * wz + radix * cz) p), (Nat.ltb_spec p (radix * wz + radix * cz + radix)),
+      (Nat.leb_spec (radix * wz) p), (Nat.ltb_spec p (radix * wz + radix * cz)),
+      (Nat.ltb_spec p (radix * wz + radix * S cz)); cbn [andb]; try lia; try reflexivity;
+      try apply N.bits_0.
+Qed.
+
 (** ** one row below the pivots: bits [n1, n1+r2) move down to [r1, r1+r2), everything from r1+r2 on
     is cleared (given that the row vanishes from n1+r2 on) *)
 Section CompressRow.
@@ -188,10 +217,9 @@ Section CompressRow.
     N.testbit (compress_l_row ncols r1 n1 r2 x) (N.of_nat j) = (j <? r1 + r2) && tsrc j.
   Proof.
     intros Hnc. unfold compress_l_row.
-    set (rest := radix - r1 mod radix).
-    assert (Hrest : 0 < rest <= radix) by (unfold rest, radix; lia).
-    set (w1 := (r1 + rest) / radix).
-    assert (Hw1 : radix * w1 = r1 + rest) by (unfold w1, rest, radix; lia).
+    destruct (rest_facts r1) as (Hrest & Hw1).
+    set (rest := radix - r1 mod radix) in *.
+    set (w1 := (r1 + rest) / radix) in *. clearbody w1. clearbody rest.
     (* first partial word *)
     set (x2 := xor_bits_row (clear_bits_row x r1 rest) r1 rest (PLE.bits_of x n1 rest)).
     assert (S2 : stage x2 (r1 + rest)).
@@ -199,66 +227,121 @@ Section CompressRow.
       destruct (Nat.leb_spec r1 p) as [H1|H1]; cbn [andb].
       - destruct (Nat.ltb_spec p (r1 + rest)) as [H2|H2]; cbn [negb].
         + destruct (Nat.ltb_spec (p - r1) rest); [|lia]. rewrite andb_false_r. cbn [xorb andb].
-          unfold tsrc. destruct (Nat.ltb_spec p r1); [lia|]. rewrite andb_true_r. do 2 f_equal. lia.
+          unfold tsrc. destruct (Nat.ltb_spec p r1); [lia|].
+          replace (n1 + p - r1) with (n1 + (p - r1)) by lia.
+          now destruct (N.testbit x (N.of_nat (n1 + (p - r1)))).
         + destruct (Nat.ltb_spec (p - r1) rest); [lia|]. cbn [andb]. now rewrite andb_true_r, xorb_false_r.
       - destruct (Nat.ltb_spec p (r1 + rest)); [|lia]. rewrite andb_true_r, xorb_false_r.
         unfold tsrc. destruct (Nat.ltb_spec p r1); [reflexivity|lia]. }
-    fold x2.
+    fold x2. clearbody x2.
     (* whole words *)
-    set (cnt := if r1 + rest <=? r1 + r2 then (r1 + r2 - (r1 + rest)) / radix else 0).
+    pose proof (cnt_facts (r1 + rest) (r1 + r2)) as Hcnt.
+    set (cnt := if r1 + rest <=? r1 + r2 then (r1 + r2 - (r1 + rest)) / radix else 0) in *.
+    clearbody cnt.
     set (x3 := fold_left _ (seq 0 cnt) x2).
     assert (S3 : stage x3 (r1 + rest + radix * cnt)).
     { rewrite <- Hw1. unfold x3. rewrite <- Hw1.
       apply (stage_moves w1 cnt x2); [now rewrite Hw1|lia]. }
+    clearbody x3.
     set (j2 := r1 + rest + radix * cnt) in *.
-    assert (Hj2 : radix * (j2 / radix) = j2) by (unfold j2; rewrite <- Hw1; unfold radix; lia).
+    assert (Hj2 : radix * (j2 / radix) = j2).
+    { unfold j2. rewrite <- Hw1. clear. unfold radix. lia. }
+    assert (Hj2' : r1 <= j2 /\ (j2 < r1 + r2 -> r1 + r2 - j2 <= radix /\ r1 + r2 <= j2 + radix) /\
+                   (r1 + r2 <= j2 \/ j2 < r1 + r2)) by (cbv zeta in Hcnt; unfold j2; unfold radix in *; lia).
+    clearbody j2. clear Hcnt Hw1.
     (* last partial word *)
     set (x4 := if j2 <? r1 + r2 then _ else x3).
     assert (S4 : exists J4, stage x4 J4 /\ r1 + r2 <= J4).
     { unfold x4. destruct (Nat.ltb_spec j2 (r1 + r2)) as [H|H].
-      - exists (j2 + radix). split.
-        + apply stage_write; auto.
-          * unfold j2. lia.
-          * unfold j2, cnt in *. destruct (Nat.leb_spec (r1 + rest) (r1 + r2)); unfold radix in *; lia.
-          * intros p H1 H2. apply tsrc_hi. lia.
-        + unfold j2, cnt in *. destruct (Nat.leb_spec (r1 + rest) (r1 + r2)); unfold radix in *; lia.
+      - exists (j2 + radix). split; [|lia].
+        apply stage_write; auto; try lia.
+        intros p H1 H2. apply tsrc_hi. lia.
       - exists j2. split; assumption. }
-    destruct S4 as (J4 & S4 & HJ4).
+    clearbody x4. destruct S4 as (J4 & S4 & HJ4). clear S3 S2 Hj2 Hj2' x2 x3.
     (* clearing *)
-    set (rz := radix - (r1 + r2) mod radix).
-    assert (Hrz : 0 < rz <= radix) by (unfold rz, radix; lia).
-    set (x5 := clear_bits_row x4 (r1 + r2) rz).
-    set (wz := (r1 + r2 + rz) / radix).
-    assert (Hwz : radix * wz = r1 + r2 + rz) by (unfold wz, rz, radix; lia).
-    set (cz := (n1 + r2 + radix - 1 - (r1 + r2 + rz)) / radix).
-    assert (Hcz : n1 + r2 <= r1 + r2 + rz + radix * cz) by (unfold cz, radix in *; lia).
-    (* x5 is [tsrc] below r1 + r2, zero on [r1 + r2, r1 + r2 + rz), x4 above *)
-    set (x6 := fold_left _ (seq 0 cz) x5).
-    rewrite N.land_spec, testbit_ones_nat.
-    assert (E6 : forall p, N.testbit x6 (N.of_nat p) = (p <? r1 + r2) && tsrc p).
-    { intros p. unfold x6.
-      assert (Z : forall y, (forall p, N.testbit y (N.of_nat p) =
-                   if (r1 + r2 <=? p) && (p <? r1 + r2 + rz) then false else N.testbit x4 (N.of_nat p)) ->
-                 forall cz' p, N.testbit (fold_left (fun x0 t => write_word x0 (wz + t) 0%N) (seq 0 cz') y) (N.of_nat p) =
-                   if (r1 + r2 <=? p) && (p <? r1 + r2 + rz + radix * cz') then false else N.testbit x4 (N.of_nat p)).
-      { intros y Hy. induction cz' as [|cz' IH]; intros p'.
-        - cbn [seq fold_left]. rewrite Nat.mul_0_r, Nat.add_0_r. apply Hy.
-        - rewrite seq_S, fold_left_app. cbn [fold_left Nat.add]. rewrite testbit_write_word, IH.
-          replace (radix * (wz + cz')) with (r1 + r2 + rz + radix * cz') by lia.
-          destruct (Nat.leb_spec (r1 + r2 + rz + radix * cz') p'), (Nat.ltb_spec p' (r1 + r2 + rz + radix * cz' + radix)),
-            (Nat.leb_spec (r1 + r2) p'), (Nat.ltb_spec p' (r1 + r2 + rz + radix * cz')),
-            (Nat.ltb_spec p' (r1 + r2 + rz + radix * S cz')); cbn [andb]; try lia; try reflexivity.
-          apply N.bits_0. }
-      rewrite (Z x5).
-      - destruct (Nat.leb_spec (r1 + r2) p) as [H1|H1]; cbn [andb].
-        + destruct (Nat.ltb_spec p (r1 + r2)); [lia|]. cbn [andb].
-          destruct (Nat.ltb_spec p (r1 + r2 + rz + radix * cz)); [reflexivity|].
-          rewrite S4. destruct (Nat.ltb_spec p J4); [apply tsrc_hi; lia|apply Hx; lia].
-        + destruct (Nat.ltb_spec p (r1 + r2)); [|lia]. cbn [andb].
-          rewrite S4. destruct (Nat.ltb_spec p J4); [reflexivity|lia].
-      - intros p'. unfold x5. rewrite testbit_clear_bits_row.
-        destruct ((r1 + r2 <=? p') && (p' <? r1 + r2 + rz)); cbn [negb]; [apply andb_false_r|apply andb_true_r]. }
-    rewrite E6. destruct (Nat.ltb_spec j (r1 + r2)); cbn [andb]; [|reflexivity].
-    destruct (Nat.ltb_spec j ncols); [apply andb_true_r|lia].
+    destruct (rest_facts (r1 + r2)) as (Hrz & Hwz).
+    set (rz := radix - (r1 + r2) mod radix) in *.
+    set (wz := (r1 + r2 + rz) / radix) in *. clearbody wz. clearbody rz.
+    pose proof (cz_facts (n1 + r2) (r1 + r2 + rz)) as Hcz.
+    set (cz := (n1 + r2 + radix - 1 - (r1 + r2 + rz)) / radix) in *. clearbody cz.
+    rewrite N.land_spec, testbit_ones_nat, zero_words_fold, testbit_clear_bits_row, S4, Hwz.
+    destruct (Nat.ltb_spec j (r1 + r2)) as [H1|H1]; cbn [andb].
+    - destruct (Nat.leb_spec (r1 + r2 + rz) j); [lia|]. cbn [andb].
+      destruct (Nat.leb_spec (r1 + r2) j); [lia|]. cbn [andb negb].
+      destruct (Nat.ltb_spec j J4); [|lia]. destruct (Nat.ltb_spec j ncols); [|lia]. now rewrite !andb_true_r.
+    - destruct (Nat.leb_spec (r1 + r2 + rz) j) as [H2|H2]; cbn [andb].
+      + destruct (Nat.ltb_spec j (r1 + r2 + rz + radix * cz)); [reflexivity|].
+        destruct (Nat.leb_spec (r1 + r2) j); [|lia]. destruct (Nat.ltb_spec j (r1 + r2 + rz)); [lia|].
+        cbn [andb negb]. rewrite andb_true_r.
+        destruct (Nat.ltb_spec j J4); [rewrite tsrc_hi by lia|rewrite Hx by lia]; reflexivity.
+      + destruct (Nat.leb_spec (r1 + r2) j); [|lia]. destruct (Nat.ltb_spec j (r1 + r2 + rz)); [|lia].
+        cbn [andb negb]. now rewrite andb_false_r.
   Qed.
 End CompressRow.
+
+(** ** the column swaps on the rows r1 .. r1+r2-1 *)
+Definition cq (r1 n1 : nat) : nat -> nat := fun s => n1 + (s - r1).
+
+Lemma get_compress_swaps A r1 n1 r2 : wf A -> r1 <= n1 -> n1 + r2 <= nc A ->
+  forall c, c <= r2 ->
+  let X := fold_left (fun M t => col_swap_in_rows M (r1 + t) (n1 + t) (r1 + t) (r1 + r2)) (seq 0 c) A in
+  wf X /\ nr X = nr A /\ nc X = nc A /\
+  forall i j, get X i j =
+    get A i (pi (cq r1 n1) (seq r1 (if (r1 <=? i) && (i <? r1 + r2) then Nat.min (S (i - r1)) c else 0)) j).
+Proof.
+  intros HA Hrn Hnc. induction c as [|c IH]; intros Hc; cbv zeta.
+  - cbn [seq fold_left]. splits; auto. intros i j.
+    destruct ((r1 <=? i) && (i <? r1 + r2)); [rewrite Nat.min_0_r|]; reflexivity.
+  - rewrite seq_S, fold_left_app. cbn [fold_left Nat.add].
+    destruct (IH ltac:(lia)) as (Hw & Hr & Hcc & Hg).
+    splits.
+    + apply wf_col_swap_in_rows; [assumption|lia|lia].
+    + now rewrite nr_col_swap_in_rows.
+    + now rewrite nc_col_swap_in_rows.
+    + intros i j. rewrite get_col_swap_in_rows, !Hg.
+      destruct (Nat.leb_spec (r1 + c) i) as [H1|H1]; cbn [andb].
+      * destruct (Nat.ltb_spec i (r1 + r2)) as [H2|H2].
+        -- destruct (Nat.leb_spec r1 i); [|lia]. cbn [andb].
+           replace (Nat.min (S (i - r1)) (S c)) with (S c) by lia.
+           replace (Nat.min (S (i - r1)) c) with c by lia.
+           rewrite seq_S, pi_app. cbn [pi]. unfold cq. now replace (r1 + c - r1) with c by lia.
+        -- destruct (Nat.leb_spec r1 i); reflexivity.
+      * destruct (Nat.leb_spec r1 i), (Nat.ltb_spec i (r1 + r2)); cbn [andb]; try reflexivity.
+        now replace (Nat.min (S (i - r1)) (S c)) with (Nat.min (S (i - r1)) c) by lia.
+Qed.
+
+Lemma get_compress_l A r1 n1 r2 : wf A -> r1 < n1 -> n1 + r2 <= nc A ->
+  (forall i j, r1 + r2 <= i -> n1 + r2 <= j -> get A i j = false) ->
+  let X := compress_l A r1 n1 r2 in
+  wf X /\ nr X = nr A /\ nc X = nc A /\
+  forall i j, get X i j =
+    if i <? r1 + r2
+    then get A i (pi (cq r1 n1) (seq r1 (if r1 <=? i then S (i - r1) else 0)) j)
+    else if j <? r1 then get A i j else if j <? r1 + r2 then get A i (n1 + j - r1) else false.
+Proof.
+  intros HA Hrn Hnc Hz. cbv zeta. unfold compress_l.
+  destruct (Nat.eqb_spec r1 n1); [lia|].
+  destruct (get_compress_swaps A r1 n1 r2 HA ltac:(lia) Hnc r2 (le_n _)) as (Hw & Hr & Hc & Hg).
+  set (A1 := fold_left _ (seq 0 r2) A) in *.
+  splits.
+  - apply wf_map_rows; [assumption|]. intros i x Hb.
+    destruct (r1 + r2 <=? i); [|assumption]. unfold compress_l_row. apply bounded_land_r, bounded_ones.
+  - now rewrite nr_map_rows.
+  - now rewrite nc_map_rows.
+  - intros i j. unfold get at 1. rewrite row_map_rows, (wf_len A1 Hw), Hr.
+    destruct (Nat.ltb_spec i (nr A)) as [Hi|Hi].
+    + destruct (Nat.leb_spec (r1 + r2) i) as [H1|H1].
+      * destruct (Nat.ltb_spec i (r1 + r2)); [lia|].
+        assert (Erow : forall j', N.testbit (row A1 i) (N.of_nat j') = get A i j').
+        { intros j'. change (get A1 i j' = get A i j'). rewrite Hg.
+          destruct (Nat.leb_spec r1 i), (Nat.ltb_spec i (r1 + r2)); cbn [andb]; try lia; reflexivity. }
+        rewrite testbit_compress_l_row; [|assumption| |lia].
+        2:{ intros j' Hj'. rewrite Erow. now apply Hz. }
+        unfold tsrc. rewrite !Erow.
+        destruct (Nat.ltb_spec j (r1 + r2)), (Nat.ltb_spec j r1); cbn [andb]; try lia; reflexivity.
+      * destruct (Nat.ltb_spec i (r1 + r2)); [|lia]. change (get A1 i j = get A i (pi (cq r1 n1) (seq r1 (if r1 <=? i then S (i - r1) else 0)) j)).
+        rewrite Hg. destruct (Nat.leb_spec r1 i); cbn [andb]; [|reflexivity].
+        destruct (Nat.ltb_spec i (r1 + r2)); [|lia]. now replace (Nat.min (S (i - r1)) r2) with (S (i - r1)) by lia.
+    + rewrite N.bits_0. rewrite !(get_out_row A i) by assumption.
+      destruct (i <? r1 + r2), (j <? r1), (j <? r1 + r2); reflexivity.
+Qed.
